@@ -63,6 +63,8 @@ REDIRECT_CASES = [
     ("chain-flat", {"A": "B", "B": "C"}, ["C"]),
 ]
 
+TITLE_ALPHABET = ["a", "B", "1", " ", "-", ".", "~", "ä", "Z"]
+FIRSTS = ["B", "1", "-", ".", "~", "Z", "Ä"]
 IMAGE_CASES = []
 for lang, canon_ns, spell_ns in (("en", "File", ["File", "file", "FILE", "Image", "image"]),
                                  ("de", "Datei", ["Datei", "datei", "Bild", "File", "Image", "file"])):
@@ -89,7 +91,8 @@ class C14(InputProp):
         pairs = [(a, b, order) for (a, b) in (("Flag.svg", "Flag.png"), ("Flag.gif", "Flag.png"), ("Flag.tif", "Flag.tiff"), ("Flag.jpg", "Flag.png"),
                                                ("Flag a.png", "Flag_a.png.png"), ("Flag.PNG", "Flag.png")) for order in ("ab", "ba")]
         fams = [Items(page_histories(tier), name="pages"), Items(REDIRECT_CASES, name="redirects"),
-                Items(IMAGE_CASES, name="images"), Items([("all",)], name="fs_escape"), Items(pairs, name="image-pairs")]
+                Items(IMAGE_CASES, name="images"), Items([("all",)], name="fs_escape"), Items(pairs, name="image-pairs"),
+                Items([(f, 3 if tier == "quick" else 4) for f in FIRSTS], name="images-all")]
         self.space = Concat(*fams)
 
     # ------------------------------------------------------------------ helpers
@@ -130,6 +133,8 @@ class C14(InputProp):
                     return self.run_images(c)
                 if fam == "image-pairs":
                     return self.run_image_pair(c)
+                if fam == "images-all":
+                    return self.run_images_all(c)
                 return self.run_fs_escape()
             except Exception as e:
                 if "/verif/" in (e.__traceback__.tb_next.tb_frame.f_code.co_filename if e.__traceback__.tb_next else "") and \
@@ -307,6 +312,44 @@ class C14(InputProp):
                     viol.append({"sig": "image-pair:%s" % ("/".join(sorted(os.path.splitext(x)[1].lower() for x in (a, b)))),
                                  "msg": "get_disk_path(%r) gives %r, stored %r (both %r are in the archive, lookup order %s)" % (t, data, payload[t], titles, order)})
             return {"key": ("pair", a, b, tuple(key)), "steps": 4, "viol": viol[:1]}
+        finally:
+            self.cleanup(d, env)
+
+    def run_images_all(self, c):
+        """EVERY canonical image title of <= n symbols over the statement's alphabet that starts with `first`, all stored in one
+        archive with distinct contents, zipped, re-opened and read back: kept apart and readable through the real archive path"""
+        first, maxlen = c
+        titles = []
+        for ln in range(0, maxlen):
+            for tup in itertools.product(TITLE_ALPHABET, repeat=ln):
+                t = first + "".join(tup)
+                if t != t.strip() or "  " in t:
+                    continue
+                titles.append("File:" + t + ".png")
+        payload = {t: ("bytes of " + t).encode("utf-8") for t in titles}
+        viol = []
+
+        def writer(fs):
+            for t in titles:
+                with open(fs.get_imagepath(t), "wb") as f:
+                    f.write(payload[t])
+
+        d, env = self.build("en", writer)
+        try:
+            w = env.wiki
+            bad = 0
+            for t in titles:
+                path = w.get_disk_path(t)
+                data = None
+                if path and os.path.exists(path):
+                    with open(path, "rb") as f:
+                        data = f.read()
+                if data != payload[t]:
+                    bad += 1
+                    if not viol:
+                        viol.append({"sig": "image-kept-apart", "msg": "get_disk_path(%r) gives %r, stored %r (archive of %d image titles)" % (
+                            t, data, payload[t], len(titles))})
+            return {"key": ("images-all", first, bad), "steps": len(titles), "viol": viol, "counters": {"image_titles_through_archive": len(titles)}}
         finally:
             self.cleanup(d, env)
 
